@@ -58,6 +58,17 @@ def hostile_name(rng: random.Random) -> str:
                            '\u2025/alice2/Secret', '../alice2/INBOX'])
     if r < 0.85:
         return 'x' * rng.choice([255, 256, 300, 1000, 5000])
+    if r < 0.89:
+        # names that become "INBOX" (the store root on maildir) under
+        # Unicode case mapping or compatibility normalisation although they
+        # are not ASCII spellings of it: dotless i, fullwidth, Kelvin-style
+        # look-alikes, combining dot
+        return rng.choice(['\u0131nbox', '\u0131NBOX', '\u0131nbox/x',
+                           'INBOX/\u0131nbox', 'I\u0307NBOX', '\u0130nbox',
+                           '\uff49\uff4e\uff42\uff4f\uff58',
+                           '\uff29\uff2e\uff22\uff2f\uff38',
+                           '\u0131nbo\uff58', 'INBO\u00d7', '\u2160NBOX',
+                           'inbox\u200b', '\u0131nbox/'])
     return gen.tidy_name(rng)
 
 
